@@ -7,6 +7,7 @@ import (
 	"net/http"
 	"time"
 
+	"github.com/cnotch/ipchub/av/format/flv"
 	"github.com/cnotch/ipchub/media"
 	"github.com/cnotch/ipchub/network/websocket"
 	"github.com/cnotch/ipchub/stats"
@@ -20,22 +21,40 @@ const verifSdpH264 = "v=0\r\no=- 0 0 IN IP4 127.0.0.1\r\ns=x\r\nc=IN IP4 0.0.0.0
 
 // verifRW is the player's HTTP response: the failAt-th Write fails (0 = never).
 type verifRW struct {
-	hdr    http.Header
-	writes int
-	failAt int
-	code   int
+	hdr          http.Header
+	writes       int
+	failAt       int
+	code         int
+	temporary    bool
+	failed       bool
+	afterFailure int
 }
 
 func (w *verifRW) Header() http.Header { return w.hdr }
 func (w *verifRW) WriteHeader(c int)   { w.code = c }
 func (w *verifRW) Write(p []byte) (int, error) {
 	w.writes++
-	if w.failAt != 0 && w.writes >= w.failAt {
+	if w.failed {
+		w.afterFailure++ // bytes after a failed (possibly partial) write can only corrupt the FLV stream
+		return len(p), nil
+	}
+	if w.failAt != 0 && w.writes == w.failAt {
+		w.failed = true
+		if w.temporary {
+			return 0, verifTimeout{}
+		}
 		return 0, errors.New("broken pipe")
 	}
 	return len(p), nil
 }
-func (w *verifRW) Flush() {}
+
+// verifTimeout is a write timeout as the net package reports it (a temporary net.Error).
+type verifTimeout struct{}
+
+func (verifTimeout) Error() string   { return "i/o timeout" }
+func (verifTimeout) Timeout() bool   { return true }
+func (verifTimeout) Temporary() bool { return true }
+func (w *verifRW) Flush()            {}
 
 // VerifHTTPFlvRelease (C03): an HTTP-FLV player whose connection breaks at any write (the FLV
 // header included), or whose stream ends, is detached; the stream's consumer count and the
@@ -46,7 +65,7 @@ func VerifHTTPFlvRelease() {
 	symapi.Assert(s.FlvTypeFlags() != 0, "stream-supports-flv")
 	media.Regist(s)
 	symapi.Settle()
-	w := &verifRW{hdr: http.Header{}, failAt: symapi.IntRange("writeFailsAt", 0, 2)}
+	w := &verifRW{hdr: http.Header{}, failAt: symapi.IntRange("writeFailsAt", 0, 5), temporary: symapi.Bool("timeoutNotReset")}
 	before := stats.FlvConns.GetSample().Active
 	done := false
 	symapi.Go(func() {
@@ -57,6 +76,17 @@ func VerifHTTPFlvRelease() {
 	if !done {
 		symapi.Assert(stats.FlvConns.GetSample().Active == before+1, "attached-player-counted-once")
 		symapi.Assert(s.ConsumerCount() == 1, "player-attached")
+		// two tags are published; a write of the first or second one may fail
+		s.WriteFlvTag(&flv.Tag{TagType: flv.TagTypeVideo, Timestamp: 40, Data: []byte{0x27, 1, 0, 0, 0, 0, 0, 0, 1, 0x41}})
+		symapi.Settle()
+		s.WriteFlvTag(&flv.Tag{TagType: flv.TagTypeVideo, Timestamp: 80, Data: []byte{0x27, 1, 0, 0, 0, 0, 0, 0, 1, 0x41}})
+		symapi.Settle()
+		symapi.Assert(w.afterFailure == 0, "nothing-is-written-to-the-player-after-a-failed-write")
+		if w.failed {
+			symapi.Assert(done, "player-with-a-failed-write-is-detached")
+		}
+	}
+	if !done {
 		// the stream ends (publisher disconnects)
 		media.Unregist(s)
 		symapi.Settle()
